@@ -752,8 +752,19 @@ func (d *deliverHandler) flush() {
 			clientID string
 			sub      *gmqtt.Subscription
 		}
+		// a member whose session has expired (and is only waiting for the expiry check to remove it) has left the group
+		live := v[:0:0]
+		for _, m := range v {
+			if t, ok := d.srv.offlineClients[m.clientID]; ok && d.now.After(t) {
+				continue
+			}
+			live = append(live, m)
+		}
+		if len(live) == 0 {
+			continue
+		}
 		// random
-		rs = v[rand.Intn(len(v))]
+		rs = live[rand.Intn(len(live))]
 		if c, ok := d.srv.queueStore[rs.clientID]; ok {
 			d.srv.addMsgToQueueLocked(d.now, rs.clientID, d.msg.Copy(), rs.sub, []uint32{rs.sub.ID}, c)
 		}
